@@ -7,6 +7,8 @@
 //	  follower caught up by snapshot) and applies the rest,
 //	C starts from that snapshot only (a new member / a restart).
 //
+// On B the raft store of a replica this node hosts before the snapshot arrives and keeps hosting is still there
+// afterwards (restoring a catalogue snapshot into a known dataset does not tear down the replicas that stay).
 // After every log all three must describe the same catalogue: the same datasets, the same
 // partitions in the same order, and for every partition the same replica set without
 // duplicates (Catalogue!Agree, SnapOK).
@@ -30,6 +32,7 @@ import (
 	pb "github.com/marekgalovic/anndb/protobuf"
 	"github.com/marekgalovic/anndb/storage"
 	"github.com/marekgalovic/anndb/storage/raft"
+	"github.com/marekgalovic/anndb/storage/wal"
 	uuid "github.com/satori/go.uuid"
 	_ "verifharness/internal/hx"
 )
@@ -142,6 +145,12 @@ func main() {
 		var dss []*dsInfo
 		var log [][]byte
 		var desc []string
+		// per entry: the dataset it deletes, or the partition it removes node 1 (this node) from
+		type touch struct {
+			ds   *dsInfo
+			part int // -1: the dataset is deleted
+		}
+		var touches []*touch
 		n := 3 + rng.Intn(8)
 		for len(log) < n {
 			x := rng.Intn(10)
@@ -169,11 +178,13 @@ func main() {
 				log = append(log, entry(pb.DatasetManagerChangeType_DatasetManagerCreateDataset, dd))
 				dss = append(dss, d)
 				desc = append(desc, "create")
+				touches = append(touches, nil)
 			case x < 4:
 				d := dss[rng.Intn(len(dss))]
 				log = append(log, entry(pb.DatasetManagerChangeType_DatasetManagerDeleteDataset, d.id.Bytes()))
 				d.alive = false
 				desc = append(desc, "delete")
+				touches = append(touches, &touch{d, -1})
 			default:
 				d := dss[rng.Intn(len(dss))]
 				t := pb.DatasetPartitionNodesChangeType_DatasetPartitionNodesChangeAddNode
@@ -194,6 +205,11 @@ func main() {
 				cd, _ := proto.Marshal(&pb.DatasetPartitionNodesChange{Type: t, DatasetId: d.id.Bytes(), PartitionId: d.parts[pi].Bytes(), NodeId: node})
 				log = append(log, entry(pb.DatasetManagerChangeType_DatasetManagerUpdatePartitionNodes, cd))
 				desc = append(desc, nm)
+				if nm == "remove" && node == 1 {
+					touches = append(touches, &touch{d, pi})
+				} else {
+					touches = append(touches, nil)
+				}
 			}
 		}
 		var ids []uuid.UUID
@@ -205,6 +221,22 @@ func main() {
 		a, b, c := newMgr(1, dbs[0]), newMgr(1, dbs[1]), newMgr(1, dbs[2])
 		var snap []byte
 		res := "ok"
+		// the replicas this node hosts on B when the snapshot arrives and keeps hosting to the end of the log (no entry
+		// behind B's prefix deletes the dataset or takes this node out of the partition): their raft stores
+		type kept struct {
+			Pid    string `json:"pid"`
+			Before int    `json:"before"` // last index of the replica's raft log before the snapshot is restored
+			After  int    `json:"after"`  // ... at the end
+			pid    uuid.UUID
+		}
+		keeps := []*kept{}
+		lastIdx := func(pid uuid.UUID) int {
+			li, err := wal.NewBadgerWAL(dbs[1], pid).LastIndex()
+			if err != nil {
+				return -1
+			}
+			return int(li)
+		}
 		finished := make(chan struct{})
 		go func() {
 			defer close(finished)
@@ -225,11 +257,46 @@ func main() {
 			for _, e := range log[:cut] {
 				b.g.process(e)
 			}
+			for _, d := range dss {
+				ds, err := b.dm.Get(d.id)
+				if err != nil {
+					continue
+				}
+			parts:
+				for pi, pid := range d.parts {
+					hosted := false
+					for _, x := range ds.VerifPartitionNodes(pi) {
+						hosted = hosted || x == 1
+					}
+					for i := cut; i < len(log); i++ {
+						if t := touches[i]; t != nil && t.ds == d && (t.part == -1 || t.part == pi) {
+							continue parts
+						}
+					}
+					if !hosted {
+						continue
+					}
+					// the group has started and stored its first entries
+					k := &kept{Pid: pid.String()[:8], pid: pid}
+					for dl := time.Now().Add(500 * time.Millisecond); time.Now().Before(dl); time.Sleep(time.Millisecond) {
+						if k.Before = lastIdx(pid); k.Before > 0 {
+							break
+						}
+					}
+					if k.Before > 0 {
+						keeps = append(keeps, k)
+					}
+				}
+			}
 			if err := b.g.restore(snap); err != nil {
 				res = "restore error: " + err.Error()
 			}
 			for _, e := range log[snapAt:] {
 				b.g.process(e)
+			}
+			time.Sleep(2 * time.Millisecond)
+			for _, k := range keeps {
+				k.After = lastIdx(k.pid)
 			}
 			if err := c.g.restore(snap); err != nil {
 				res = "restore error: " + err.Error()
@@ -244,13 +311,13 @@ func main() {
 			// the catalogue state machine does not return from applying an entry / restoring a snapshot (the
 			// zero group's apply loop would be stuck for good): report it and stop - its locks may be held
 			enc.Encode(map[string]interface{}{"ev": "cat", "hid": hid, "log": desc, "cut": cut, "snapat": snapAt,
-				"res": "hang: the catalogue state machine did not come back within 20 s", "a": []dsv{}, "b": []dsv{}, "c": []dsv{}})
+				"res": "hang: the catalogue state machine did not come back within 20 s", "a": []dsv{}, "b": []dsv{}, "c": []dsv{}, "kept": []int{}})
 			bw.Flush()
 			f.Sync()
 			os.Exit(0)
 		}
 		time.Sleep(2 * time.Millisecond)
-		enc.Encode(map[string]interface{}{"ev": "cat", "hid": hid, "log": desc, "cut": cut, "snapat": snapAt, "res": res,
+		enc.Encode(map[string]interface{}{"ev": "cat", "hid": hid, "log": desc, "cut": cut, "snapat": snapAt, "res": res, "kept": keeps,
 			"a": a.view(ids), "b": b.view(ids), "c": c.view(ids)})
 		a.close(ids, entry)
 		b.close(ids, entry)
